@@ -1,9 +1,9 @@
 CONSTANTS
-  Creators = {"p1", "p3"}
+  Creators = {"p1"}
   Signers = {"c1", "k1"}
   CUs = {60, 150}
   Sessions = {1, 2}
-  Muts = {"none", "qzero", "badge", "lava"}
+  Muts = {"none", "qzero", "badge"}
   Muts2 = {"none", "lava", "badge"}
   MaxRelays = 2
   EpochsToSave = 1
@@ -11,6 +11,7 @@ CONSTANTS
   MaxOps = 2
   GenHist = FALSE
   F2Fixed = TRUE
+  CuGuard = FALSE
   Profile = ""
 INIT Init
 NEXT Next
